@@ -33,6 +33,7 @@ func Run(c *corr.Ctx) {
 	m1vSweep(c)
 	tsSweep(c)
 	mjpegSweep(c)
+	c.Flush()
 	for _, s := range specs {
 		cu.RunAll(c, s)
 	}
